@@ -200,8 +200,17 @@ fn manifest_json_ex_buf(
 			let flat = s.clone().into_flat();
 			if let Some(truncate) = options.debug_truncate_strings {
 				if flat.len() > truncate {
-					let (start, end) = flat.split_at(truncate / 2);
-					let (_, end) = end.split_at(end.len() - truncate / 2);
+					// The limit is in bytes; move both cut points outwards to the nearest
+					// character boundary so that a multi-byte character is never split.
+					let mut head = truncate / 2;
+					while !flat.is_char_boundary(head) {
+						head -= 1;
+					}
+					let mut tail = flat.len() - truncate / 2;
+					while !flat.is_char_boundary(tail) {
+						tail += 1;
+					}
+					let (start, end) = (&flat[..head], &flat[tail..]);
 					escape_string_json_buf(&format!("{start}..{end}"), buf);
 				} else {
 					escape_string_json_buf(&flat, buf);
